@@ -284,8 +284,17 @@ void execute_variable_declaration(StatementExecutor *executor,
         // 配列初期化
         if (!var.array_dimensions.empty()) {
             int total_size = 1;
-            for (int dim : var.array_dimensions) {
-                total_size *= dim;
+            {
+                // 64-bit product with a bound: int[65536][65536] overflows int
+                int64_t checked_total = 1;
+                for (int dim : var.array_dimensions) {
+                    checked_total *= dim;
+                    if (checked_total > 268435456 || checked_total < -268435456) {
+                        throw std::runtime_error(
+                            "Array too large: more than 268435456 elements");
+                    }
+                }
+                total_size = static_cast<int>(checked_total);
             }
 
             // 文字列配列の場合は array_strings を初期化
